@@ -1370,4 +1370,22 @@ Tokens""")]),
          """        fst = line[: max(_start_idx - 1, 0)]""", """        fst = line[: _start_idx - 1]""")]),
     dict(id="slicewrap-neutral-guarded", kind=N, props=["C17", "C08"], expect="silent", edits=[("defaults_utils.py",
          """        fst = line[: max(_start_idx - 1, 0)]""", """        fst = line[: _start_idx - 1] if _start_idx > 0 else \"\"""")]),
+    # ---- JOIN-KIND, GETVALUE-PART
+    dict(id="joinkind-identity-before-join", kind=B, props=["C04", "C06"], expect="JOIN-KIND", edits=[("emitter_utils.py",
+         """        types=", ".join(
+            "{}".format(quote_f(get_value(elt))) for elt in keyword.value.elts
+        ),""", """        types=", ".join(quote_f(get_value(elt)) for elt in keyword.value.elts),""")]),
+    dict(id="joinkind-neutral-map-str", kind=N, props=["C04", "C06"], expect="silent", edits=[("emitter_utils.py",
+         """        types=", ".join(
+            "{}".format(quote_f(get_value(elt))) for elt in keyword.value.elts
+        ),""", """        types=", ".join(str(quote_f(get_value(elt))) for elt in keyword.value.elts),""")]),
+    dict(id="getvalue-anything-with-a-value", kind=B, props=["C07", "C02", "C04", "C06"], expect="GETVALUE-PART", edits=[("ast_utils.py",
+         """    elif isinstance(node, (Constant, Expr, Return, Assign, AnnAssign, keyword, Index)):""",
+         """    elif isinstance(node, Constant) or hasattr(node, "value"):""")]),
+    dict(id="getvalue-attribute-added-to-holders", kind=B, props=["C07"], expect="GETVALUE-PART", edits=[("ast_utils.py",
+         """    elif isinstance(node, (Constant, Expr, Return, Assign, AnnAssign, keyword, Index)):""",
+         """    elif isinstance(node, (Constant, Expr, Return, Assign, AnnAssign, keyword, Index, Attribute)):""")]),
+    dict(id="getvalue-neutral-two-tests", kind=N, props=["C07", "C04"], expect="silent", edits=[("ast_utils.py",
+         """    elif isinstance(node, (Constant, Expr, Return, Assign, AnnAssign, keyword, Index)):""",
+         """    elif isinstance(node, (Constant, Index)) or isinstance(node, (Expr, Return, Assign, AnnAssign, keyword)):""")]),
 ]
